@@ -10,10 +10,10 @@ for sd in "$@"; do sd=$(readlink -f $sd)
   rm -rf $S/repo; cp -r $S/repo0 $S/repo
   (cd $S/repo && patch -p1 -s --no-backup-if-mismatch < $sd/patch.diff) || { echo "$(basename $sd): patch does not apply"; continue; }
   res=""
-  for t in t7_room_kernel t8_ingest_kernel t9_lww t11_roomnode_kernel t12_deletion_kernel; do
+  for t in t7_room_kernel t8_ingest_kernel t9_lww t10_conn_close t11_roomnode_kernel t12_deletion_kernel; do
     out=$(cd /verif/translators && VERIF_GEN_DIR=$S/lean/DiscretModel/Gen python3 $t.py $S/repo 2>&1) || res="$res $t:TRANSLATOR-FAILED($(echo "$out" | tail -1 | cut -c1-100))"
   done
-  b=$(cd $S/lean && lake build DiscretModel.Lemmas.RoomKernelEq DiscretModel.Lemmas.IngestKernelEq DiscretModel.Lemmas.LwwEq DiscretModel.Lemmas.RoomNodeKernelEq DiscretModel.Lemmas.DeletionKernelEq 2>&1)
+  b=$(cd $S/lean && lake build DiscretModel.Lemmas.RoomKernelEq DiscretModel.Lemmas.IngestKernelEq DiscretModel.Lemmas.LwwEq DiscretModel.Lemmas.RoomNodeKernelEq DiscretModel.Lemmas.DeletionKernelEq DiscretModel.Lemmas.ConnCloseEq 2>&1)
   if echo "$b" | grep -q "error"; then res="$res BROKEN: $(echo "$b" | grep -E "^✖|error:" | head -3 | cut -c1-160 | tr '\n' ' ')"; else res="$res all regenerated obligations still check"; fi
   echo "$(basename $sd):$res"
 done
